@@ -92,6 +92,7 @@ def execute(kinds, abort, schedule, fine=False):
                 r = cl.post("/%s/stream-steps" % uid, data=json.dumps({"settings": {}}), buffered=False, **hdr)
                 chunks, results = [], 0
                 it = iter(r.response)
+                gone = False
                 try:
                     for ch in it:
                         ch = ch.decode() if isinstance(ch, bytes) else ch
@@ -99,8 +100,12 @@ def execute(kinds, abort, schedule, fine=False):
                         if ch.startswith("{"):
                             results += 1
                             if abort.get(rid, 0) and results >= abort[rid]:
+                                gone = True
                                 break               # the client goes away
                 finally:
+                    if r.status_code == 200 and not gone:
+                        # the stream ran to its end; the server closes the response some time later: a step of its own ("D")
+                        sched._tls.worker._park("D")
                     r.close()
                 body = "".join(chunks)
                 if not body.rstrip().endswith("]") and body.startswith("["):
@@ -190,7 +195,8 @@ def run(tier, replay_file=None):
     # a GET /save-state between the steps of stepping requests, and a run-steps whose own save fails
     combos += [(("steps", "save"), {}), (("stream", "save"), {}), (("save", "step"), {}), (("steps!fault",), {}), (("steps!fault", "step"), {})]
     triples = [(("steps", "stream", "step"), {"b": 1}), (("step", "step", "steps"), {}), (("stream", "steps", "steps"), {}),
-               (("steps", "save", "step"), {}), (("stream", "save", "steps"), {})]
+               (("steps", "save", "step"), {}), (("stream", "save", "steps"), {}),
+               (("stream", "steps", "step"), {})]
     if not quick:
         triples += [(k, {}) for k in itertools.product(KINDS, repeat=3)]
     R.cov["states"], R.cov["transitions"] = 0, 0
@@ -206,7 +212,8 @@ def run(tier, replay_file=None):
         plans.append((kinds, abort, scheds))
     # the listed deviations of the old code must violate the clauses in the spec (the spec can tell them apart)
     for dev, kinds, inv in (('{"D14b_step_nolock"}', ("step", "step"), "Serial"), ('{"D14b_check_then_lock"}', ("steps", "steps"), "Exclusive"),
-                            ('{"D14a_stream_no_unlock"}', ("stream", "step"), "Released")):
+                            ('{"D14a_stream_no_unlock"}', ("stream", "step"), "Released"),
+                            ('{"D14c_close_unlocks"}', ("stream", "steps", "step"), "Exclusive")):
         dv = tlc.run("StepLock", cons(kinds, dev), invariants=INV, view="View", spec="Spec")
         if dv.violation is None:
             raise common.Machinery("deviation %s does not violate any clause in the spec" % dev)
@@ -217,6 +224,15 @@ def run(tier, replay_file=None):
         if quick and any(k.startswith("err/") for k in kinds):
             cap = 4
         pick = scheds if len(scheds) <= cap else rng.sample(scheds, cap)
+        if kinds[0] == "stream" and len(kinds) == 3 and not abort:
+            # the window between the end of a stream (lock released) and the closing of its response: another request is accepted
+            # in it, then the response is closed, then the third request arrives - every such schedule
+            def window(sc):
+                na = sc.count("a")
+                return all(x == "a" for x in sc[:na - 1]) and sc[na - 1] != "a" and sc[na] == "a"
+            shaped = [sc for sc in scheds if window(sc)]
+            R.cov["schedules_close_window"] = R.cov.get("schedules_close_window", 0) + len(shaped)
+            pick = list(pick) + [sc for sc in (shaped if not quick or len(shaped) <= 30 else rng.sample(shaped, 30)) if sc not in pick]
         traces = []
         runs = [(list(sc), False) for sc in pick]
         if len(kinds) == 2 and not any(k.startswith("err/") for k in kinds) and not abort:
